@@ -118,6 +118,9 @@ class Check:
     def finish(self, checker_cmd):
         os.makedirs(EVID, exist_ok=True)
         os.makedirs(REPL, exist_ok=True)
+        for fn_ in os.listdir(REPL):  # replay files of earlier runs of this property are stale
+            if fn_.startswith(self.prop + "-"):
+                os.unlink(os.path.join(REPL, fn_))
         n_obl = sum(r.n for r in self.kernels) + len(self.rules)
         n_dis = sum(r.discharged for r in self.kernels) + sum(1 for r in self.rules if r["ok"])
         by_backend = {"z3": 0, "cvc5": 0, "rule": sum(1 for r in self.rules if r["ok"])}
